@@ -4,7 +4,9 @@ import (
 	"bytes"
 	"encoding/json"
 	"fmt"
+	"reflect"
 	"sort"
+	"time"
 
 	"github.com/spikeekips/mitum/base"
 	"github.com/spikeekips/mitum/launch"
@@ -216,4 +218,70 @@ func BumpHints(v any, deep bool, top bool) any {
 		return l
 	}
 	return v
+}
+
+// CanonicalContent: canonical JSON with every RFC3339 time string cut to the millisecond -- the precision the
+// repository itself gives to times (util.NormalizeTime in localtime.Time.Bytes, which is what is hashed and
+// signed).  Two documents equal under CanonicalContent carry the same content.
+func CanonicalContent(b []byte) []byte {
+	v, err := ParseJSON(b)
+	if err != nil {
+		return b
+	}
+	var norm func(v any) any
+	norm = func(v any) any {
+		switch x := v.(type) {
+		case map[string]any:
+			m := make(map[string]any, len(x))
+			for k, e := range x {
+				m[k] = norm(e)
+			}
+			return m
+		case []any:
+			l := make([]any, len(x))
+			for i := range x {
+				l[i] = norm(x[i])
+			}
+			return l
+		case string:
+			if len(x) >= 20 {
+				if t, err := time.Parse(time.RFC3339Nano, x); err == nil {
+					return t.UTC().Truncate(time.Millisecond).Format(time.RFC3339Nano)
+				}
+			}
+		}
+		return v
+	}
+	return RenderJSON(norm(v))
+}
+
+// RehashNodeOperation decodes a node operation, recomputes its hash over its present signs (what anybody
+// can do: the operation hash is not secret) and returns the re-encoded operation.
+func (w *World) RehashNodeOperation(unit []byte) ([]byte, bool) {
+	v, err := w.Enc.Decode(unit)
+	if err != nil || v == nil {
+		return nil, false
+	}
+	p := reflect.New(reflect.TypeOf(v))
+	p.Elem().Set(reflect.ValueOf(v))
+	op, ok := p.Interface().(interface {
+		SetNodeSigns([]base.NodeSign) error
+		NodeSigns() []base.NodeSign
+	})
+	if !ok {
+		return nil, false
+	}
+	var signs []base.NodeSign
+	func() {
+		defer func() { _ = recover() }()
+		signs = op.NodeSigns()
+	}()
+	if signs == nil || op.SetNodeSigns(signs) != nil {
+		return nil, false
+	}
+	b, err := w.Enc.Marshal(p.Elem().Interface())
+	if err != nil {
+		return nil, false
+	}
+	return b, true
 }
